@@ -196,7 +196,7 @@ def run(tier, t0):
     acc.sample({'pair': [0, 3], 'get_num_children': 80, 'cells_checked': 'all 12 faces'})
     acc.sample({'level': R, 'get_num_cells': rm.num_cells(R), 'compared_with': 'len(set(cell_to_children(0, r))) and sums over each coarser level'})
     rule = (f'all 32x32 resolution pairs; every cell of resolutions -1..3 x child levels (<= {maxkids} children) and G1[basic] seeds at 4..29; '
-            f'levels 0..{R} enumerated from the world cell and re-summed over coarser levels; areas for r = 0..30')
+            f'levels 0..{R} enumerated from the world cell and re-summed over coarser levels, also through uncompact of mixed-level covers given in descending and interleaved order; areas for r = 0..30')
     return common.finish(PID, LEVEL, tier, acc, t0, rule, [
         'authalic sphere area taken as 4*pi*6371007.2^2 (the constant documented by the package)',
         'apertures 12, 5, 4, 4, ... are the specification of the hierarchy (reference: vf/refmodel.num_desc)',
